@@ -87,7 +87,7 @@ func DecryptMessageWithTempKeys(msg []byte, nonceSecond, nonceServer *big.Int) [
 	decodedMessage := decodedWithHash[20:]
 
 	// режем последние 0-15 байт ориентируюясь по хешу
-	for i := len(decodedMessage) - 1; i > len(decodedMessage)-16; i-- {
+	for i := len(decodedMessage); i > len(decodedMessage)-16; i-- {
 		if bytes.Equal(decodedHash, dry.Sha1Byte(decodedMessage[:i])) {
 			return decodedMessage[:i]
 		}
